@@ -536,7 +536,8 @@ func more5TempFilesOnlyInTmpDir(p *Program, r *Report) {
 		}
 	}
 	if n < 1 {
-		broken("R-C11-11: no os.CreateTemp site found in the back ends")
+		// no temp file is made with os.CreateTemp at all: where the openers get their file from is R-C05-4's subject
+		r.Ok("R-C11-11", "no-createtemp-sites", "backend", "no os.CreateTemp / os.MkdirTemp call in the back ends")
 	}
 }
 
